@@ -5,6 +5,8 @@ namespace Verif.Drv.Sig
 open Verif.SigMask
 
 def sigs : List Nat := [10, 12, 28]
+/-- a signal the application blocks itself and the source is never told about (SIGURG) -/
+def foreignSig : Nat := 23
 
 def words (line : String) : List String := (line.splitOn " ").filter (· ≠ "")
 
@@ -22,7 +24,7 @@ def parseOp (ws : List String) : Option Op :=
 def join (l : List Nat) : String := String.intercalate "," (l.map toString)
 
 def snapshot (st : St) : String :=
-  s!"blocked=[{join (sigs.filter st.blocked)}] handled=[{join (sigs.map st.handled)}] reported=[{join st.reported}]"
+  s!"blocked=[{join ((sigs ++ [foreignSig]).filter st.blocked)}] handled=[{join (sigs.map st.handled)}] reported=[{join st.reported}]"
 
 def stepLine (st : Option St) (line : String) : Option St × List String :=
   match words line with
@@ -31,8 +33,15 @@ def stepLine (st : Option St) (line : String) : Option St × List String :=
     match st with
     | some s =>
       let s' := step 64 s .dropSrc
-      (none, [s!"end blocked=[{join (sigs.filter s'.blocked)}]"])
+      (none, [s!"end blocked=[{join ((sigs ++ [foreignSig]).filter s'.blocked)}]"])
     | none => (none, [])
+  | ["appblock"] =>
+    -- the application blocks a signal of its own (`pthread_sigmask`), outside the source
+    match st with
+    | some s =>
+      let s' := { s with blocked := fun x => x == foreignSig || s.blocked x }
+      (some s', [s!"op {line} -> {snapshot s'}"])
+    | none => (st, ["bad-op " ++ line])
   | ws =>
     match st, parseOp ws with
     | some s, some o =>
